@@ -90,7 +90,13 @@ def gen_case(rng, tier="quick"):
                                "correlations") and rng.random() < 0.35
     if case["shortcut"]:
         case["calls"] = 1
-    if rng.random() < 0.7:
+    if api == "pt_tebd" and rng.random() < 0.15:
+        case["float_end_step"] = True     # compute(4.0): accepted by int()
+    if rng.random() < 0.08:
+        # the output stream breaks (closed pipe): every write from the k-th
+        # on raises, in whichever thread it happens
+        case["fault"] = {"kind": "stream", "k": rng.randrange(1, 12)}
+    elif rng.random() < 0.7:
         kind = _pick(rng, FAULTS_BY_API[api])
         fault = {"kind": kind}
         n = case["steps"]
@@ -577,7 +583,8 @@ def sc_pt_tebd(case, sim, plan):
     if case.get("calls", 1) == 2:
         m = max(1, n // 2)
         calls.append(lambda: tebd.compute(m, progress_type=case["progress"]))
-    calls.append(lambda: tebd.compute(n, progress_type=case["progress"]))
+    end = float(n) if case.get("float_end_step") else n
+    calls.append(lambda: tebd.compute(end, progress_type=case["progress"]))
     return calls
 
 
@@ -668,6 +675,8 @@ def run_case(case, dec):
     if case.get("directed"):
         sim.script = simsched.DirectedSchedule(*case["directed"])
     env = _install(sim)
+    if (case.get("fault") or {}).get("kind") == "stream":
+        env.stream.fail_from = case["fault"]["k"]
     plan = models.FaultPlan()
     plan.exc_class = models.EXC_FLAVOURS[
         (case.get("fault") or {}).get("exc", "exception")]
@@ -699,7 +708,7 @@ def run_case(case, dec):
                 outcome = "raised:" + type(e).__name__
                 if plan.fired or (case.get("fault") or {}).get("kind") in (
                         "cap", "shape", "pt_short", "pt_raises", "gate_task",
-                        "control"):
+                        "control", "stream") or case.get("float_end_step"):
                     pass  # expected consequence of the injected fault
                 else:
                     notes.append("unexpected %s: %s" % (
@@ -728,7 +737,9 @@ def run_case(case, dec):
         "sim_ms": sim.now_ms,
         "outcomes": outcomes,
         "probes": sim.probes,
-        "faults_fired": {("user:" + f[0]): 1 for f in plan.fired},
+        "faults_fired": dict({("user:" + f[0]): 1 for f in plan.fired},
+                             **({"io:stream_write_error": env.stream.failed}
+                                if env.stream.failed else {})),
         "switches": sorted("|".join(s) for s in sim.switches),
         "pairs": sorted("|".join(p) for p in sim.pairs),
         "cb_exceptions": [list(x) for x in sim.cb_exceptions],
